@@ -1,11 +1,13 @@
 import CodeLimit.Lemmas.Headers
+import CodeLimit.Spec.Nest
 /-!
 # Parenthesis-balancing patterns end with the nesting back at zero (C14, last clause)
 
 For a compiled pattern `D` with one `Balanced l r` label `b`:
 
 * `nestDelta l r t` is the change of nesting caused by the token `t` (`+1` for an opener, `-1` for a
-  closer that is not an opener, `0` otherwise), `nest l r w` the sum over `w`;
+  closer that is not an opener, `0` otherwise), `nest l r w` the sum over `w` (both defined in
+  `Spec/Nest.lean`);
 * `bConsumed D b cfg w` are the tokens of `w` consumed by `b`-labelled transitions of the run of
   `D` over `w` from the configuration `cfg`;
 * `balancedExitOk D` is a decidable checker; under it (`ExitOK`), the run of an attempt has two
@@ -19,14 +21,8 @@ namespace CL
 
 /-! ## the nesting profile -/
 
-/-- the change of nesting depth caused by one token -/
-def nestDelta (l r : Pred) (t : Tok) : Int :=
-  if l.eval t then 1 else if r.eval t then -1 else 0
-
-/-- nesting profile: (number of openers) - (number of closers that are not openers) -/
-def nest (l r : Pred) : List Tok → Int
-  | [] => 0
-  | t :: ts => nestDelta l r t + nest l r ts
+/- `nestDelta` and `nest` (the change of nesting depth caused by one token, and its sum over a
+token list) are specification vocabulary: they are defined in `Spec/Nest.lean`. -/
 
 theorem nest_append (l r : Pred) (u v : List Tok) : nest l r (u ++ v) = nest l r u + nest l r v := by
   induction u with
